@@ -102,7 +102,7 @@ def _cls(c):
         return "param/%d" % len(c["params"])
     return "%s/%s/%s/d%d/p%d%s/c%d/der%d/%s-%s" % (
         k, c["model"]["type"], W.sampler_shape(c["sampler"]), len(c.get("data", [])), len(c.get("params") or []),
-        "j" if c.get("param_mode") == "joined" else "", len(c["residual"]), _has(c["residual"], ("d1", "d2", "dint")),
+        "j" if c.get("param_mode") == "joined" else "", len(c["residual"]), _has(c["residual"], ("d1", "d2", "dint", "ddata")),
         c.get("error", "-"), c.get("reduce", "-"))
 
 
